@@ -1079,5 +1079,50 @@ theorem numCol_events {α : Type} (rows : List (EventRow α)) :
     simp only [numCol, List.map_cons, List.filterMap_cons] at ih ⊢
     simp [ih]
 
+/-! ### header row of a ragged file; errors of the pattern loader -/
+
+/-- the text of a ragged file: when the loader is called with `header=True` a header line (any text without a
+    newline) comes first -/
+def withHeader (header : Bool) (hdr body : List Char) : List Char :=
+  if header then hdr ++ '\n' :: body else body
+
+/-- the lines that `load_ragged_time_series` parses: with `header=True` the header line is gone -/
+theorem raggedLines_withHeader (header : Bool) (hdr body : List Char) (h : '\n' ∉ hdr) :
+    (if header then (splitLines (withHeader header hdr body)).drop 1 else splitLines (withHeader header hdr body))
+      = splitLines body := by
+  cases header with
+  | false => rfl
+  | true => simp [withHeader, splitLines_line h]
+
+theorem patStep_error {α : Type} (conv : Conv α) (st : PatState α) (l : List Char) (e : LoadErr)
+    (h : patStep conv st l = .error e) : e.toPy = .valueError := by
+  unfold patStep at h
+  split at h
+  · cases h
+  · split at h
+    · cases h
+    · split at h
+      · cases h; rfl
+      · cases h; rfl
+      · split at h
+        · cases h; rfl
+        · split at h
+          · cases h; rfl
+          · cases h
+
+theorem patRun_error {α : Type} (conv : Conv α) : ∀ (ls : List (List Char)) (st : PatState α) (e : LoadErr),
+    patRun conv st ls = .error e → e.toPy = .valueError
+  | [], _, _, h => by simp [patRun] at h
+  | l :: ls, st, e, h => by
+    simp only [patRun] at h
+    cases hs : patStep conv st l with
+    | error e' =>
+      simp only [hs, Except.error.injEq] at h
+      subst h
+      exact patStep_error conv st l e' hs
+    | ok st' =>
+      simp only [hs] at h
+      exact patRun_error conv ls st' e h
+
 end IO
 end Mir
